@@ -20,9 +20,9 @@ import (
 const modPath = "github.com/pion/interceptor"
 
 var skipPkgs = map[string]bool{
-	modPath + "/examples/nack": true,
-	modPath + "/internal/test": true,
-	modPath + "/pkg/mock":      true,
+	modPath + "/examples/nack":  true,
+	modPath + "/internal/test":  true,
+	modPath + "/pkg/mock":       true,
 	modPath + "/pkg/verifhooks": true,
 }
 
